@@ -8,13 +8,16 @@
    and is equivariant under every linear map of the features (rotations Q: cov(X Q^T) = Q cov(X) Q^T), all stated
    along arbitrary directions.  PROVED as well (C19_rotation_objectives): the documented objectives of NCA, MLKR and LMNN
    have the same value at (L', Q X) as at (L, X) whenever L' Q = L (L' = L Q^T for an orthogonal Q), for every kernel
-   function, every label vector and every in-range table of target neighbours.  NOT proved: that the (pseudo-)inverse and the whitening of RCA inherit these
-   relations (eigen-solvers are oracles), rotation equivariance of LFDA / ITML / LSML / MMC and invariance
+   function, every label vector and every in-range table of target neighbours; (C19_itml_rotation): for ITML, a solver
+   written in this repository, mapping every pair difference through an inner-product preserving Q and the prior A0 to A0'
+   with A0' Q = Q A0 gives, after EVERY number of sweeps, the same dual variables and slack bounds and a learned matrix
+   with A' Q = Q A (A' = Q A Q^T), hence equal learned distances between corresponding points.  NOT proved: that the (pseudo-)inverse and the whitening of RCA inherit these
+   relations (eigen-solvers are oracles), rotation equivariance of LFDA / LSML / MMC and invariance
    of the optimum returned by external optimisers: these relations are checked on the real code by props/c19.py (bit-exact
    where the implementation only touches differences, toleranced otherwise). *)
 From Coq Require Import List Reals.
 From Coq Require Import Permutation Lra.
-From ML Require Import Ops Vec VecR MatR LinAlg ITML MMC LSML Objectives C11Proof C19Proof C19Rot CovProof.
+From ML Require Import Ops Vec VecR MatR LinAlg ITML MMC LSML Objectives C11Proof C19Proof C19Rot C19Itml CovProof.
 Import ListNotations.
 Open Scope R_scope.
 
@@ -87,3 +90,25 @@ Print Assumptions C19_rotation_objectives.
 Example C19_rotation_nonvacuous :
   forall x, wfvR 2 x -> mvmulR [[0; 1]; [-1; 0]] (mvmulR [[0; -1]; [1; 0]] x) = mvmulR [[1; 0]; [0; 1]] x.
 Proof. intros [|a [|b [|? ?]]] H; try discriminate. cbn. f_equal; [|f_equal]; lra. Qed.
+
+(* ITML under an orthogonal change of coordinates, after any number of sweeps *)
+Definition C19_itml_rotation_stmt : Prop :=
+  forall (d : nat) (Q : Rm), wfmR d d Q ->
+    (forall x y, wfvR d x -> wfvR d y -> vdotR (mvmulR Q x) (mvmulR Q y) = vdotR x y) ->
+  forall (g : option R) (cs : list cstrR) (A0 A0' : Rm) (lo hi : R) (n : nat),
+    Forall (fun c : cstrR => wfvR d (cv c)) cs -> wfmR d d A0 -> wfmR d d A0' ->
+    (forall x, wfvR d x -> mvmulR A0' (mvmulR Q x) = mvmulR Q (mvmulR A0 x)) ->
+    let s := runR g cs n (@init ROps A0 cs lo hi) in
+    let s' := runR g (map (rotc Q) cs) n (@init ROps A0' (map (rotc Q) cs) lo hi) in
+    duals s' = duals s /\
+    (forall x, wfvR d x -> mvmulR (A s') (mvmulR Q x) = mvmulR Q (mvmulR (A s) x)) /\
+    (forall z, wfvR d z -> quadformR (A s') (mvmulR Q z) = quadformR (A s) z).
+
+Theorem C19_itml_rotation : C19_itml_rotation_stmt.
+Proof.
+  intros d Q HQ HD g cs A0 A0' lo hi n Hcs HA HA' HC s s'.
+  destruct (itml_rotation d Q HD g cs A0 A0' lo hi n Hcs HA HA' HC) as [E1 [E2 [E3 E4]]].
+  split; [exact E1|]. split; [exact E2|].
+  intros z Hz. apply (conj_distance d Q HD (A s) (A s') z E3 E2 Hz).
+Qed.
+Print Assumptions C19_itml_rotation.
